@@ -81,7 +81,7 @@ def run_case(spec):
         return _tableau(spec, info, cls)
     import desolver as de
     dt = np.dtype("float64") if spec["dtype"] == "float64" else np.dtype(np.longdouble)
-    eps = float(np.finfo(dt).eps)
+    eps = max(float(np.finfo(dt).eps), 2.3e-16)     # the linear algebra of the extended-precision stage solve is float64
     zmag = 10 ** spec["logz"]
     ang = np.deg2rad(spec["arg"])
     h = spec["hsign"] * spec["hmag"]
